@@ -411,6 +411,14 @@ def hexl(h: str) -> str:
 
 def run(chk: Check):
     rng = random.Random(chk.seed)
+    seen: Dict[str, int] = {}
+
+    def _report(key, desc, replay):
+        # one replay per failing class (key); every occurrence is counted in the evidence
+        seen[key] = seen.get(key, 0) + 1
+        if seen[key] == 1:
+            _report(key, desc, replay)
+
     gen_ok = regen_or_report(chk)
     if gen_ok:
         proved = chk.prove(FAM, "Props.C10", THEOREMS, extra_targets=["Model/Codec.vo"])
@@ -465,7 +473,7 @@ def run(chk: Check):
         if r["orig"] != "00" * (len(r["orig"]) // 2):
             nontrivial.add((c["cls"], r["orig"]))
         for key, desc in oracle(c, r, lv, hlv, L):
-            chk.spec_failure(key=key, desc=desc, replay=dict(classes=specs, compiled=comp, imports=IMPORTS, case=wire[n],
+            _report(key, desc, dict(classes=specs, compiled=comp, imports=IMPORTS, case=wire[n],
                                                              observed={k: v for k, v in r.items() if k != "json_text"},
                                                              json=r.get("json_text", "")[:600]))
         if not gen_ok or L.size(c["cls"]) > COQ_MAX_SIZE:
@@ -511,6 +519,7 @@ def run(chk: Check):
                        "from_json with version 0 / hash / other; compared with Model/Codec.v by vm_compute (classes <= "
                        f"{COQ_MAX_SIZE} bytes; larger ones: spec oracle only); non-trivial = distinct non-zero image")
     chk.cov["input_distribution"] = dist
+    chk.cov["spec_oracle_failures_by_key"] = seen
     chk.cov["classes"] = dict(own=len(own), imported=len(imported), compiled=len(comp))
     chk.cov["exhaustive"] = False
     step = max(1, len(cases) // 5)
